@@ -292,9 +292,9 @@ def inplace : P String := do
   let zero : Vec := fun _ => 0
   let inModel : Array XRat :=
     if rep == "generic" then
-      if fn == "unnorm" && !guardU then toX (unnormInPlaceG mm b 0 o S)
-      else if fn == "update" && !guardU then normX (unnormInPlaceG mm b 0 o S)
-      else if fn == "partial" && !guardP then toX (predictInPlaceG mm b 0 S)
+      if fn == "unnorm" && !guardU then toX (ofList (unnormInPlaceL mm 0 o S inA.toList))
+      else if fn == "update" && !guardU then normX (ofList (unnormInPlaceL mm 0 o S inA.toList))
+      else if fn == "partial" && !guardP then toX (ofList (predictInPlaceL mm 0 S inA.toList))
       else outModel
     else if rep == "sparse" then
       if fn == "unnorm" && !guardU then toX (unnormInPlaceSp mm b 0 o)
